@@ -3,7 +3,7 @@
    `decompress` stands for the negotiated decompressor run to completion (an oracle: C20's domain);
    every theorem holds for every such function. *)
 From Coq Require Import Lia.
-From V Require Import C14_Spec C14_Proofs.
+From V Require Import C14_Spec C14_Proofs C14_Alias.
 Open Scope N_scope.
 
 (* Chunking never matters (raw dataTracer + builder): for EVERY configuration, EVERY list of chunks
@@ -137,6 +137,24 @@ Theorem non_stream : forall decompress c chunks,
 Proof. exact non_stream_proof. Qed.
 Print Assumptions non_stream.
 
+(* The aliasing assumption.  Everything above is about a model whose state holds VALUES: what the
+   tracer keeps of a chunk is unaffected by what happens later to the array the chunk was a window
+   of.  A Go slice is not a value; the code implements value semantics only by COPYING what it
+   keeps (`append(d.prefix, data...)` into storage of its own, bytes.Buffer.Write), as the
+   io.Reader / io.Writer contracts demand.  C14_Alias makes the caller's memory explicit: for
+   EVERY behaviour of the caller (it rewrites its memory as it likes before each call - new data,
+   scribbling, re-use of one buffer - and hands over any window inside it) the copying tracer
+   never writes to that memory, the application finds in each window exactly what was handed
+   over, and the events are the declarative parse of the handed-over values.  The correspondence
+   run checks the Go code against this with a caller of exactly that kind (windows of one re-used
+   array with spare capacity, scribbled over between calls, compared with private copies). *)
+Theorem copying_is_value_semantics : forall decompress c mem calls,
+  windows_inside mem calls ->
+  mem_run decompress c false mem calls =
+  (expected_events decompress c (concat (handed mem calls)) ENil, handed mem calls, mem_after mem calls).
+Proof. exact copying_spec_proof. Qed.
+Print Assumptions copying_is_value_semantics.
+
 (* ---- non-vacuity: the hypotheses are inhabited, both sides of the flag rule occur ---- *)
 Definition toy_dec (b : bytes) : option bytes := match b with 90 :: r => Some r | _ => None end.
 Definition resp : cfg := mk_cfg false true true.
@@ -207,3 +225,38 @@ Example ex_headers :
   props_of_headers (bs "application/connect+json") (bs "gzip") [] [] = (false, DBroken) /\
   props_of_headers (bs "application/json") [] [] [] = (false, DBroken).
 Proof. vm_compute. repeat split; reflexivity. Qed.
+
+(* ---- the aliasing assumption: the variant that RETAINS the caller's slice for the first
+   fragment of a split prefix (`d.prefix = data`, seeded change C14-11) is refuted ---- *)
+Definition demo_body : bytes := encode 1 (bs "hello world") ++ encode 0 (bs "xyz").
+Definition demo_chunks : list bytes := [firstn 2 demo_body; skipn 2 demo_body].
+(* a caller re-using one buffer (at offset 3 of a 40-byte array, scribbled with 0xA5 between calls) *)
+Definition demo_reuse : list call := reuse_calls 40 3 165 demo_chunks.
+Example ex_windows_inside : windows_inside (repeat 0 40) demo_reuse.
+Proof. vm_compute. repeat split; lia. Qed.
+(* the copying tracer: events of the whole body, the application sees what was read *)
+Example ex_copying_reuse :
+  mem_run Some reqc false (repeat 0 40) demo_reuse =
+  (expected_events Some reqc demo_body ENil, demo_chunks, mem_after (repeat 0 40) demo_reuse).
+Proof. vm_compute. reflexivity. Qed.
+(* the retaining variant: the events are not those of the body AND the application's bytes are altered *)
+Example alias_variant_refuted :
+  fst (fst (mem_run Some reqc true (repeat 0 40) demo_reuse)) <> expected_events Some reqc demo_body ENil /\
+  snd (fst (mem_run Some reqc true (repeat 0 40) demo_reuse)) <> demo_chunks.
+Proof. split; vm_compute; intro H; discriminate H. Qed.
+(* exactly what the Go code with that change does in seeded/C14-11/demo_test.go (io.Copy-like caller,
+   no scribbling): first event flags 0 instead of 1, the application receives
+   01 00 | 00 00 00 00 03 "llo world" 00 00 00 00 03 "xyz" *)
+Example alias_variant_demo :
+  fst (mem_run Some reqc true (repeat 0 40) (plain_reuse_calls demo_chunks)) =
+  ([EvData true 0 (Some (mk_env 0 11)) 11; EvData true 1 (Some (mk_env 0 3)) 3; EvEnd true ENil],
+   [[1; 0]; [0; 0; 0; 0; 3] ++ bs "llo world" ++ [0; 0; 0; 0; 3] ++ bs "xyz"]).
+Proof. vm_compute. reflexivity. Qed.
+(* why a driver that gives every call a fresh buffer and looks at the bytes only when the call
+   returns cannot see it: events and bytes-at-return are right, the damage (a LATE overwrite of
+   the first window, and writes into the gap behind it) is only in the memory afterwards *)
+Example alias_variant_unnoticed_with_fresh_buffers :
+  let r := mem_run Some reqc true (repeat 238 48) (spread_calls 8 3 demo_chunks) in
+  fst r = (expected_events Some reqc demo_body ENil, demo_chunks) /\
+  snd r <> mem_after (repeat 238 48) (spread_calls 8 3 demo_chunks).
+Proof. split; vm_compute; [reflexivity|intro H; discriminate H]. Qed.
